@@ -89,8 +89,12 @@ func (c clientCodec) Decode(response []byte, context *ClientContext) (result []i
 			tag = decoder.NextByte()
 			count := 1
 			if tag == io.TagList {
-				count = decoder.ReadInt()
-				decoder.AddReference(nil)
+				if count = decoder.ReadInt(); count < 0 {
+					count = 0
+				}
+				// the list takes its place in the reference table (as in the service
+				// codec): a reference to it is a cast error, not a nil dereference
+				decoder.AddReference(&results)
 				for i := 0; i < n && i < count; i++ {
 					results[i] = decoder.Read(returnType[i])
 				}
